@@ -162,6 +162,50 @@ func runC13(c *fw.Ctx) {
 	}
 	c.Cases("pinned", len(pins), true, func(i int, r *rng.R) { c13Case(c, r, pins[i]) })
 	historyCases(c, "history", 600, 60000, probeNative)
+	// lists of records and of rows whose cells change their kind from one to the next (a field that is nil or a scalar
+	// in one record is a container in another, a row with a container early follows a row with one late)
+	c.Cases("records-of-changing-kinds", c.N(300, 30000), false, func(i int, r *rng.R) {
+		cell := func() *spec.Spec {
+			switch r.Intn(7) {
+			case 0:
+				return spec.NilV()
+			case 1:
+				return spec.IntV(r.Intn(9))
+			case 2:
+				return spec.StrV([]string{"", "a", "b"}[r.Intn(3)])
+			case 3:
+				return spec.ObjV("in", spec.ListV(spec.IntV(1), spec.ObjV("deep", spec.NilV())))
+			case 4:
+				return spec.ListV(spec.ObjV("x", spec.IntV(1)), spec.IntV(2))
+			case 5:
+				return spec.ObjV()
+			}
+			return spec.FloatV(float64(r.Intn(7)) / 2)
+		}
+		n, w := r.Range(2, 6), r.Range(1, 4)
+		rows := spec.ListV()
+		for j := 0; j < n; j++ {
+			if i%2 == 0 {
+				rec := spec.ObjV()
+				for k := 0; k < w; k++ {
+					rec.Set(fmt.Sprintf("f%d", k), cell())
+				}
+				rows.L = append(rows.L, rec)
+			} else {
+				row := spec.ListV()
+				for k := 0; k < w; k++ {
+					row.L = append(row.L, cell())
+				}
+				rows.L = append(rows.L, row)
+			}
+		}
+		tree := rows
+		if r.Chance(1, 3) {
+			tree = spec.ObjV("table", rows, "n", spec.IntV(n))
+		}
+		c.Count("tables_with_cells_of_changing_kinds")
+		c13Case(c, r, tree)
+	})
 	c.Cases("shrink-and-grow", c.N(900, 90000), false, func(i int, r *rng.R) { c13ShrinkGrow(c, i, r) })
 	c.Cases("re-homing", c.N(400, 40000), false, func(i int, r *rng.R) { c13Rehome(c, i, r) })
 	// typed container flavours (with nil entries) inside native trees
